@@ -282,6 +282,9 @@ def obligations(tier):
                             continue
                         if ke is not None and ke <= p and (U.shape != (a, ke) or V.shape != (ke, b)):
                             fails.append(f"{tag}: documented shapes violated: {U.shape} {V.shape}")
+                        if mname != "callable" and (U.shape != (a, min(kk, a)) or V.shape != (min(kk, b), b)):
+                            # past min(shape) every method returns the same completion: as many columns of U / rows of V as requested and available
+                            fails.append(f"{tag}: U {U.shape} / V {V.shape} instead of ({a}, {min(kk, a)}) / ({min(kk, b)}, {b})")
                         exact = mname != "randomized_svd" or ks + 5 >= rk or True
                         tol = 1e-8 * max(ref[0], 1.0) if mname != "symeig_svd" else 1e-6 * max(ref[0], 1.0)
                         if np.any(s_ < -1e-12) or np.any(np.diff(s_) > 1e-9 * max(ref[0], 1)):
